@@ -291,9 +291,9 @@ type C18Obs struct {
 
 // hand-written types: recursion, embedding, the `,string` option
 type c18Node struct {
-	Name string     `json:"name"`
-	Kids []c18Node  `json:"kids"`
-	Next *c18Node   `json:"next,omitempty"`
+	Name string              `json:"name"`
+	Kids []c18Node           `json:"kids"`
+	Next *c18Node            `json:"next,omitempty"`
 	ByID map[string]*c18Node `json:"byId"`
 }
 type c18Base struct {
@@ -329,17 +329,19 @@ type c18PP struct {
 	Next **c18PP `json:"next,omitempty"`
 }
 type c18Deep struct {
-	Name string                `json:"name"`
-	Rows [][]*c18Deep          `json:"rows"`
-	Idx  map[string][]c18Deep  `json:"idx"`
-	Pair [2]*c18Deep           `json:"pair,omitempty"`
-	Opt  *[]c18Deep            `json:"opt,omitempty"`
+	Name string               `json:"name"`
+	Rows [][]*c18Deep         `json:"rows"`
+	Idx  map[string][]c18Deep `json:"idx"`
+	Pair [2]*c18Deep          `json:"pair,omitempty"`
+	Opt  *[]c18Deep           `json:"opt,omitempty"`
 }
 type c18A struct {
+	ID   int    `json:"id"` // the two types of the cycle disagree on the type of "id"
 	Name string `json:"name"`
 	B    *c18B  `json:"b,omitempty"`
 }
 type c18B struct {
+	ID string `json:"id"`
 	N  int    `json:"n"`
 	As []c18A `json:"as"`
 }
@@ -354,8 +356,22 @@ type c18Forest struct {
 	ByKey map[string]c18Plain `json:"byKey"`
 }
 
+// two types that reach each other through pointers and disagree on the type of "id"
+type c18Author struct {
+	ID   int      `json:"id"`
+	Best *c18Book `json:"best,omitempty"`
+}
+type c18Book struct {
+	ID     string     `json:"id"`
+	Author *c18Author `json:"author,omitempty"`
+}
+
 func c18Fixed(name string) (any, []any) {
 	switch name {
+	case "recursive-mutual-pointers":
+		return c18Author{}, []any{c18Author{ID: 1, Best: &c18Book{ID: "b", Author: &c18Author{ID: 2, Best: &c18Book{ID: "c"}}}}, c18Author{ID: 3}}
+	case "recursive-mutual-pointers-2":
+		return c18Book{}, []any{c18Book{ID: "b", Author: &c18Author{ID: 2, Best: &c18Book{ID: "c", Author: &c18Author{ID: 4}}}}}
 	case "recursive-slice-root":
 		leaf := c18Plain{Name: "leaf", Kids: []c18Plain{}}
 		return []c18Plain{}, []any{[]c18Plain{{Name: "a", Kids: []c18Plain{leaf, leaf}}, leaf}, []c18Plain{}}
@@ -391,7 +407,7 @@ func c18Fixed(name string) (any, []any) {
 	return nil, nil
 }
 
-var c18FixedNames = []string{"recursive-slice-root", "recursive-slice-field", "recursive-plain", "recursive-ptrptr", "recursive-containers", "recursive-mutual", "recursive", "embedded", "embedded-pointer", "string-option", "shadowed"}
+var c18FixedNames = []string{"recursive-mutual-pointers", "recursive-mutual-pointers-2", "recursive-slice-root", "recursive-slice-field", "recursive-plain", "recursive-ptrptr", "recursive-containers", "recursive-mutual", "recursive", "embedded", "embedded-pointer", "string-option", "shadowed"}
 
 func runC18(c *C18Case) (C18Obs, string) {
 	var o C18Obs
@@ -488,6 +504,12 @@ func init() {
 		for i := range cases {
 			c := &cases[i]
 			o, term := runC18(c)
+			if c.Fixed != "" {
+				// the generator iterates Go maps: the hand-written types are generated repeatedly, each time from scratch
+				for rep := 0; rep < 31 && len(o.Problems) == 0; rep++ {
+					o, term = runC18(c)
+				}
+			}
 			meta.Cases = append(meta.Cases, map[string]any{"input": c, "go": o})
 			for _, p := range o.Problems {
 				sig := p
